@@ -1,9 +1,11 @@
-"""Contracts for fastavro/utils.py (C20): the leaf part of gen_data.
+"""Contracts for fastavro/utils.py (C20): gen_data.
 
-For schemas built from primitives, fixed, enum, non-empty unions and references to these, the value
-generated validates against the schema (VALID) whatever the random source returns within its
-documented ranges.  Arrays, maps and records (dictionary / list building with fresh random keys) are
-not under contract; the whole property is exercised by the bounded stand-in."""
+For every parsed schema without logical types (unions non-empty, field names of a record pairwise distinct --
+GENOK) the value generated validates against the schema (VALID), whatever the random source returns within
+its documented ranges: primitives, fixed, enum, unions, references, arrays and maps of ten generated
+items / entries (random keys may repeat), records with every field generated.  The list / dictionary
+building is handled by right-unfolded invariants and small lemmas about `d[k] = v` (contracts/lemmas.py).
+Logical types, the counts of generate_many and the writers' acceptance are exercised by the bounded stand-in."""
 from pyvc.contracts import target, R, implies
 import spec.core as S
 import spec.avro as A
@@ -29,26 +31,55 @@ class _gen_utf8:
     ensures = lambda result: True
 
 
-@target(U, "gen_data", behavior="leafy")
-class gen_data_leafy:
+@target(U, "gen_data")
+class gen_data:
+    """every schema without logical types (non-empty unions, distinct field names): arrays and maps of ten generated
+    items / entries, records with every field generated -- and the value validates"""
     types = dict(schema="py", named_schemas="dict")
     modifies = []
     requires = lambda schema, named_schemas: (
         A.WF(schema, named_schemas) and implies(isinstance(schema, dict), "logicalType" not in schema)
-        and A.LEAFY(schema, named_schemas)
-        # (consequences of LEAFY, stated so that the array / map / record paths are seen to be unreachable)
-        and implies(isinstance(schema, dict), schema["type"] != "array" and schema["type"] != "map"
-                    and schema["type"] != "record" and schema["type"] != "error")
-        and implies(isinstance(schema, dict), schema["type"] != "union" and schema["type"] != "error_union")
+        and A.GENOK(schema, named_schemas)
+        and implies(isinstance(schema, dict), schema["type"] != "error"
+                    and schema["type"] != "union" and schema["type"] != "error_union")
         and schema != "array" and schema != "map" and schema != "record" and schema != "error"
         and schema != "union" and schema != "error_union")
     ensures = lambda schema, named_schemas, result: (
         A.VALID(result, schema, named_schemas, {}) and not isinstance(result, tuple))
     uses_locals = ["real_index"]
     unfold_here = ["NS_CLEAN"]
+    loops = {
+        # the array under construction: the items generated so far all validate
+        "comp0": lambda schema, named_schemas: (
+            len(_acc) == _i and A.ALL_VALID_R(_acc, schema["items"], named_schemas, {}, _i)),
+        # the map under construction: string keys, valid values (keys may repeat: a later value overwrites)
+        "comp1": lambda schema, named_schemas: (
+            A.ALL_STR_R(list(_acc), len(_acc))
+            and A.ALL_VALID_R(list(_acc.values()), schema["values"], named_schemas, {}, len(_acc))),
+        # the record under construction: the first _i fields are present with valid values, no "-type" key;
+        # what is still needed of the remaining fields (well-formed, generatable, names not used before)
+        "comp2": lambda schema, named_schemas: (
+            A.REC_R(schema["fields"], _acc, named_schemas, {}, _i) and "-type" not in _acc
+            and A.WF_FIELDS(schema["fields"], named_schemas, _i) and A.GENOK_FIELDS(schema["fields"], named_schemas, _i)
+            and A.DISTINCT_FROM(schema["fields"], _i)
+            and A.NOT_AMONG(schema["fields"], "-type", len(schema["fields"]))),
+    }
+    loop_hints = {
+        "comp0": [lambda: L.allvalid_r_append(_acc, _new, schema["items"], named_schemas, {}, _i)],
+        "comp1": [lambda: L.map_step(_acc, _newkey, _newval, schema["values"], named_schemas, {})],
+        "comp2": [lambda: L.rec_frame(schema["fields"], _acc, _newkey, _newval, named_schemas, {}, _i),
+                  lambda: L.dset_same(_acc, _newkey, _newval),
+                  lambda: L.not_among_at(schema["fields"], "-type", len(schema["fields"]), _i)],
+    }
+    exit_hints = {
+        "comp0": [lambda: L.allvalid_bridge(_acc, schema["items"], named_schemas, {}, len(_acc))],
+        "comp1": [lambda: L.allstr_bridge(list(_acc), len(_acc)),
+                  lambda: L.allvalid_bridge(list(_acc.values()), schema["values"], named_schemas, {}, len(_acc))],
+        "comp2": [lambda: L.rec_bridge(schema["fields"], _acc, named_schemas, {}, len(schema["fields"]))],
+    }
     call_hints = {"gen_data#2": [
         lambda: L.wf_branch_at(schema, named_schemas, 0, real_index),
-        lambda: L.leafy_at(schema, named_schemas, 0, real_index)]}
+        lambda: L.genok_at(schema, named_schemas, 0, real_index)]}
     return_hints = [
         lambda: L.any_valid_at(result, schema, named_schemas, {}, 0, real_index),
         lambda: L.wf_branch_at(schema, named_schemas, 0, real_index),
